@@ -527,5 +527,5 @@ func ReadMinimalKey(rd io.Reader) (key.Key, error) {
 	if err != nil {
 		return nil, err
 	}
-	return key.New(key.MinecraftNamespace, str), nil
+	return parseIdentifierKey(str), nil
 }
